@@ -1,7 +1,7 @@
 (* Props_C02.v — property C02 (canonical invocation envelope). *)
 Require Import Base Syntax Front Plan.
 Require Import gen.CmpTable.
-Require Import spec.Spec_C02 proofs.PlanProofs proofs.C02Proofs.
+Require Import spec.Spec_C02 proofs.PlanProofs proofs.C02Proofs proofs.CountsProofs.
 Open Scope N_scope.
 
 (* tie: the model's transcription of `impl Ord for Param` equals the table printed by
@@ -62,6 +62,26 @@ Theorem C02_sections_sorted : forall ps,
   sections_sorted (plan_secs ps) = true.
 Proof. exact plan_sections_sorted. Qed.
 Print Assumptions C02_sections_sorted.
+
+(* the counts word: whatever parameter list the Counter accepts, the four counts it computes
+   are the multiplicities of the four sections in the slot sequence the visitors emit, provided
+   no small (<= 16 byte) struct value carries objects (the Counter does not count those) *)
+Theorem C02_counts_are_multiplicities : forall ps c,
+  small_structs_carry_no_objects ps -> counter Debug ps = Ok c ->
+  nbi c = mult 0 (plan_secs ps) /\ nbo c = mult 1 (plan_secs ps) /\
+  noi c = mult 2 (plan_secs ps) /\ noo c = mult 3 (plan_secs ps).
+Proof. exact counts_are_multiplicities. Qed.
+Print Assumptions C02_counts_are_multiplicities.
+
+(* the property itself, for every method outside the named classes whose counts fit a nibble:
+   the envelope (counts word, slot sequence) is canonical in the sense of the specification *)
+Theorem C02_envelope_canonical : forall ps c,
+  has_objstruct_value ps = false -> objarr_after_out ps = false ->
+  counter Debug ps = Ok c ->
+  nbi c <= 15 -> nbo c <= 15 -> noi c <= 15 -> noo c <= 15 ->
+  envelope_canonical (nbi c, nbo c, noi c, noo c) (plan_secs ps) = true.
+Proof. exact envelope_is_canonical. Qed.
+Print Assumptions C02_envelope_canonical.
 
 (* the counts word is injective exactly below 16 *)
 Theorem C02_pack_unpack : forall a b c d,
